@@ -1,7 +1,7 @@
 """C13 - well-formed requests never hit the server's internal-error path."""
 import ast
 
-from ..astutil import U, dotted, walk_local, is_self_attr, call_name, short, enum_member, get_class, methods, classes
+from ..astutil import U, dotted, walk_local, is_self_attr, call_name, short, enum_member, get_class, methods, classes, params, bind_args
 from ..cfg import CFG, calls_at
 from ..dataflow import ReachingDefs, node_of_expr
 from ..guards import handler_catches
@@ -313,6 +313,92 @@ def check_optional_deref(ctx, m):
     ctx.count('nullable_structure_dereferences', n_deref, 3)
 
 
+def partial_on_empty(fn):
+    """parameters of a helper for which an EMPTY collection makes the helper raise: functools.reduce(f, p) without an initial value,
+    max(p) / min(p) without a default, p[0] / p[-1] - unless the use is dominated by a truthiness / len() test of p"""
+    from ..cfg import CFG
+    from ..guards import dominating_edges
+    from ..dataflow import node_of_expr
+    ps = set(params(fn, skip_self=False))
+    out = {}
+    g = None
+    for n in walk_local(fn):
+        p_, how = None, None
+        if isinstance(n, ast.Call):
+            cn = (call_name(n) or '').split('.')[-1]
+            def source_param(e):
+                # the collection itself, or a comprehension / list() / map() / sorted() over it (empty when it is empty)
+                names = [x.id for x in ast.walk(e) if isinstance(x, ast.Name) and x.id in ps]
+                return names[0] if len(set(names)) == 1 else None
+            if cn == 'reduce' and len(n.args) == 2 and not n.keywords and source_param(n.args[1]):
+                p_, how = source_param(n.args[1]), 'reduce() without an initial value'
+            elif cn in ('max', 'min') and len(n.args) == 1 and not any(k.arg == 'default' for k in n.keywords) and source_param(n.args[0]):
+                p_, how = source_param(n.args[0]), '%s() without a default' % cn
+        elif isinstance(n, ast.Subscript) and isinstance(n.ctx, ast.Load) and isinstance(n.value, ast.Name) and isinstance(n.slice, ast.Constant) and n.slice.value in (0, -1):
+            p_, how = n.value.id, 'indexing [%d]' % n.slice.value
+        if p_ is None or p_ not in ps:
+            continue
+        if g is None:
+            g = CFG(fn)
+        node = node_of_expr(g, n)
+        guarded = False
+        if node is not None:
+            for t, lab in dominating_edges(g, node):
+                ts = U(t.stmt)
+                if ts in (p_, 'len(%s)' % p_) and lab == 'T':
+                    guarded = True
+                if ts.startswith('len(%s) ' % p_) or ts.startswith('%s is' % p_) or ts == 'not %s' % p_:
+                    guarded = True
+        if not guarded:
+            out[p_] = how
+    return out
+
+
+def check_partial_helpers(ctx, m):
+    """C13.R9: helper functions of kmip.core (enums, utils) that raise on an empty collection are called from the engine only with
+    an argument that was tested for emptiness: stored collections (usage masks, names, groups) can legitimately be empty."""
+    from ..cfg import CFG
+    from ..guards import dominating_edges
+    from ..dataflow import node_of_expr
+    ctx.rule('C13.R9', 'a helper of kmip.core that raises on an empty collection (functools.reduce without an initial value, max()/min() without a default, indexing [0] of its parameter) is called from the engine only with an argument tested for emptiness on the path: stored collections such as the usage mask list can be empty, and the helper\'s TypeError/ValueError/IndexError is answered with General Failure')
+    src = ctx.src
+    partial = {}
+    for rel, alias in (('kmip/core/enums.py', 'enums'), ('kmip/core/utils.py', 'utils')):
+        t = src.tree(rel)
+        for f in [x for x in t.body if isinstance(x, ast.FunctionDef)]:
+            po = partial_on_empty(f)
+            if po:
+                partial['%s.%s' % (alias, f.name)] = (f, po)
+    ctx.analysed['helpers_partial_on_empty_collections'] = sorted(partial)
+    n_calls = 0
+    for name, fn in sorted(m.methods.items()):
+        g = None
+        for c in [x for x in walk_local(fn) if isinstance(x, ast.Call) and call_name(x) in partial]:
+            f, po = partial[call_name(c)]
+            b = bind_args(f, c, skip_self=False)
+            for p_, how in sorted(po.items()):
+                a = b.get(p_)
+                if a is None or isinstance(a, (ast.List, ast.Tuple)) and a.elts:
+                    continue
+                n_calls += 1
+                if g is None:
+                    g = CFG(fn)
+                node = node_of_expr(g, c)
+                at = U(a)
+                guarded = False
+                if node is not None:
+                    for t, lab in dominating_edges(g, node):
+                        ts = U(t.stmt)
+                        if (ts == at or ts == 'len(%s)' % at or ts.startswith('len(%s) >' % at)) and lab == 'T':
+                            guarded = True
+                        if ts == 'not %s' % at and lab == 'F':
+                            guarded = True
+                ctx.check(guarded, 'C13.R9', 'KmipEngine.%s|%s(%s)' % (name, call_name(c), at), m.site(c, fn),
+                          '%s is called with a collection tested for emptiness' % call_name(c),
+                          '%s raises on an empty collection (%s) and is called with %s, which can be empty (e.g. an object stored without that attribute): the exception is answered with General Failure' % (call_name(c), how, at))
+    ctx.analysed['calls_of_partial_helpers_from_engine'] = n_calls
+
+
 def run(ctx):
     src = ctx.src
     ai = EngineAI.shared(src)
@@ -543,6 +629,7 @@ def run(ctx):
     ctx.count('columns_and_indexes_scanned', n_k, 30)
     if not any(f.rule == 'C13.R8' for f in ctx.findings):
         ctx.ok('C13.R8', 'kmip/pie/objects.py, kmip/pie/sqltypes.py', 'no uniqueness / check constraints besides the primary keys')
+    check_partial_helpers(ctx, m)
     ctx.not_decided += ['implicit exceptions of third-party code for particular values (cryptography rejecting a nonce length, unpadding failure with a wrong key)']
     ctx.assumptions += ['requests reach the engine only through the decoders (wire-decoded provenance): field types are those the decoders construct',
                         'TypeError raises in pie validate() are infeasible for decoder-typed values; ValueError raises depend on values and are feasible']
